@@ -40,8 +40,7 @@ theorem result_is_library (a : Args) (w : World) (content out : List Char)
   | some p => simp [writeFile]
 
 /-- input routing does not matter: the same text through `--filename` or through stdin -/
-theorem input_routing (a : Args) (w : World) (p : Path) (text : List Char) (hf : w.files p = some text)
-    (hcfgfile : a.removalMarkerTargetConfig ≠ some p ∨ True) :
+theorem input_routing (a : Args) (w : World) (p : Path) (text : List Char) (hf : w.files p = some text) :
     contentOf { a with filename := some p } w = contentOf { a with filename := none } { w with stdin := text } := by
   simp [contentOf, hf]
 
